@@ -146,11 +146,26 @@ class Judge:
         while isinstance(t, ast.UnaryOp) and isinstance(t.op, ast.Not):
             t, neg = t.operand, not neg
         sentinel_side = None
-        if isinstance(t, ast.Compare) and len(t.ops) == 1 and isinstance(t.ops[0], (ast.Is, ast.In)) \
-                and _mentions(self.labels_of(t.left, site), targets):
-            names = {n.id for n in ast.walk(t.comparators[0]) if isinstance(n, ast.Name)}
-            if names and names <= {"empty_line", "linebreak", "comma"}:
-                sentinel_side = "body"
+
+        def layout_test(x):
+            """side of `x` on which the element is a layout sentinel: `item is empty_line`, `item in (…)`, and or/and of such"""
+            if isinstance(x, ast.UnaryOp) and isinstance(x.op, ast.Not):
+                r = layout_test(x.operand)
+                return {"body": "else", "else": "body"}.get(r)
+            if isinstance(x, ast.Compare) and len(x.ops) == 1 and isinstance(x.ops[0], (ast.Is, ast.In, ast.IsNot, ast.NotIn)) \
+                    and _mentions(self.labels_of(x.left, site), targets):
+                names = {n.id for n in ast.walk(x.comparators[0]) if isinstance(n, ast.Name)}
+                if names and names <= {"empty_line", "linebreak", "comma"}:
+                    return "body" if isinstance(x.ops[0], (ast.Is, ast.In)) else "else"
+            if isinstance(x, ast.BoolOp):
+                sides = {layout_test(v) for v in x.values}
+                if sides == {"body"} and isinstance(x.op, ast.Or):
+                    return "body"
+                if sides == {"else"} and isinstance(x.op, ast.And):
+                    return "else"
+            return None
+
+        sentinel_side = layout_test(t)
         if isinstance(t, ast.Call) and isinstance(t.func, ast.Name) and t.func.id == "isinstance" and len(t.args) == 2 \
                 and _mentions(self.labels_of(t.args[0], site), targets) and "Comment" in norm(t.args[1]):
             sentinel_side = "else"
